@@ -14,6 +14,8 @@ import statistics
 from fractions import Fraction
 
 import numpy as np
+
+from .. import harness as H
 from scipy.stats import norm
 
 PID = "C10"
@@ -228,14 +230,22 @@ def shard_accessor(spec, R):
             break
         dtype = "int16" if it % 2 == 0 else "float32"
         ny, nx, nt = int(rng.integers(1, 4)), int(rng.integers(1, 4)), int(rng.choice([3, 6, 12, 30]))
-        nodata = -9999
+        # the placeholder may be a value the statistics themselves can take (tau in [-1, 1], p in [0, 1], flag 0 / +-1)
+        nodata = [-9999, -1, 0, 1, -32768, 32767][H.pick(it, 1, 6)]
         cube = (rng.integers(-300, 300, (ny, nx, nt)) + np.arange(nt) * rng.integers(-20, 21, (ny, nx, 1))).astype(dtype)
+        cube[cube == nodata] += 2
+        # pixels whose statistics hit those values exactly: strictly monotone (tau = +-1) and palindromic (S = 0, tau = 0)
+        hostile = [(10 + 3 * np.arange(nt)), (900 - 7 * np.arange(nt)), np.minimum(np.arange(nt), np.arange(nt)[::-1]) * 5 + 20]
+        cube[0, 0] = hostile[H.pick(it, 2, 3)].astype(dtype)
+        if nx > 1:
+            cube[0, 1] = hostile[(H.pick(it, 2, 3) + 1) % 3].astype(dtype)
+        R.count(f"accessor_nodata_{nodata}")
         alln = rng.random((ny, nx)) < 0.25
-        with_attr = bool(it % 3)
+        with_attr = bool(H.pick(it, 3, 3))
         if with_attr:
             cube[alln] = nodata
         da = xr.DataArray(cube, dims=["y", "x", "time"], coords={"time": pd.date_range("2001-01-01", periods=nt, freq="YS")}, attrs={"nodata": nodata} if with_attr else {})
-        order = [("y", "x", "time"), ("time", "y", "x"), ("y", "time", "x")][it % 3]
+        order = [("y", "x", "time"), ("time", "y", "x"), ("y", "time", "x")][H.pick(it, 4, 3)]
         with warnings.catch_warnings():
             warnings.simplefilter("ignore")
             ds = da.transpose(*order).hdc.algo.mktrend()
